@@ -141,6 +141,36 @@ pub fn mc_sample(p: &[u8], w: usize, h: usize, x: i32, y: i32, mv: Mv) -> i32 {
     }
 }
 
+/// Candidate predictors (6.1.1 / Annex F) and their component-wise median for luma block `k` of
+/// macroblock `i`; `mvs` = vectors of all previous macroblocks, `cur` = vectors of this one so far.
+pub fn predict(mvs: &[[Mv; 4]], cur: &[Mv; 4], i: usize, mbw: usize, k: usize) -> Mv {
+    let (mx, my) = (i % mbw, i / mbw);
+    let left = |blk: usize| -> Mv {
+        if mx == 0 {
+            (0, 0)
+        } else {
+            mvs[i - 1][blk]
+        }
+    };
+    let c1 = match k {
+        0 => left(1),
+        2 => left(3),
+        1 => cur[0],
+        _ => cur[2],
+    };
+    let (c2, c3) = if k >= 2 {
+        (cur[0], cur[1])
+    } else if my == 0 {
+        // first row: candidates 2 and 3 take the value of candidate 1
+        (c1, c1)
+    } else {
+        let above = mvs[i - mbw][if k == 0 { 2 } else { 3 }];
+        let ar = if mx + 1 == mbw { (0, 0) } else { mvs[i - mbw + 1][2] };
+        (above, ar)
+    };
+    (median(c1.0, c2.0, c3.0), median(c1.1, c2.1, c3.1))
+}
+
 #[derive(Clone, Debug)]
 pub struct Tol {
     pub ideal: Vec<f64>,
@@ -223,32 +253,7 @@ pub fn decode(pic: &Pic, reference: Option<&Planes>) -> Result<Decoded, String> 
                 } else {
                     let n = if kind.is_4v() { 4 } else { 1 };
                     for k in 0..n {
-                        let left = |blk: usize| -> Mv {
-                            if mx == 0 {
-                                (0, 0)
-                            } else {
-                                mvs[i - 1][blk]
-                            }
-                        };
-                        let c1 = match k {
-                            0 => left(1),
-                            2 => left(3),
-                            1 => cur[0],
-                            _ => cur[2],
-                        };
-                        let (c2, c3) = if k >= 2 {
-                            (cur[0], cur[1])
-                        } else if my == 0 {
-                            // first row: above and above-right take the value of candidate 1 ...
-                            // ... except that above-right is zero at the right picture edge
-                            (c1, if mx + 1 == mbw { (0, 0) } else { c1 })
-                        } else {
-                            let above = mvs[i - mbw][if k == 0 { 2 } else { 3 }];
-                            let ar = if mx + 1 == mbw { (0, 0) } else { mvs[i - mbw + 1][2] };
-                            (above, ar)
-                        };
-                        let px = median(c1.0, c2.0, c3.0);
-                        let py = median(c1.1, c2.1, c3.1);
+                        let (px, py) = predict(&mvs, &cur, i, mbw, k);
                         cur[k] = (wrap(px + mvd[k].0 as i32), wrap(py + mvd[k].1 as i32));
                     }
                     if n == 1 {
